@@ -149,8 +149,9 @@ def sweep(dc, sc, res, kind, typed, ignore, named, sigs, label):
     p = Probe(typed, ignore)
     f = p.make()
     opts = {'typed': typed, 'ignore': ignore}
+    given = ['given-name', '', 'given-name', '0'][(len(label) + len(sigs)) % 4] if named else None
     if named:
-        opts['name'] = 'given-name'
+        opts['name'] = given           # any text is a legal name, the empty one too
     if kind == 'django':
         opts['version'] = 2
     w = deco(f, **opts)
@@ -222,6 +223,14 @@ def sweep(dc, sc, res, kind, typed, ignore, named, sigs, label):
             w('yyy-never-seen', 'a')
             if p.execs - e > 1:
                 res.violation('two calls differing only in ignored position 0 both executed', {'label': label})
+        if kind != 'django':
+            # the entries live under the given name, or under module.qualname of the function when none was given
+            bases = {k[0] for k in cache if isinstance(k, tuple) and k}
+            want = given if named else f.__module__ + '.' + f.__qualname__
+            if bases != {want}:
+                res.violation('memoized entries are stored under the name(s) %r, expected %r' % (sorted(map(repr, bases)), want),
+                              {'label': label, 'named': named, 'name': given})
+            res.count('entry_names_checked')
         res.count('decorator_' + kind)
         res.seen('config_cells', (kind, typed, tuple(sorted(map(str, ignore))), named))
         if len(res.samples) < 2:
